@@ -16,6 +16,10 @@ import ast
 from collections import defaultdict
 
 
+# loops are taken 0..LOOP_UNROLL times by the bounded path enumeration (quick: 1, thorough: 2)
+LOOP_UNROLL = 1
+
+
 class Node:
     __slots__ = ("id", "kind", "ast", "label")
 
@@ -337,12 +341,14 @@ class CFG:
         """a dominates b: every path entry->b passes through a."""
         return self.must_pass(b, via_nodes=[a]) or a == b
 
-    def paths(self, start=None, targets=None, max_visits=1, limit=20000):
+    def paths(self, start=None, targets=None, max_visits=None, limit=20000):
         """Enumerate paths start -> any of ``targets`` (default: EXIT and RAISE) as lists of
         (node id, label taken to leave it).  Each node is visited at most ``max_visits`` times
         per path (loop heads ``max_visits + 1``) so loops run 0..max_visits times."""
         start = self.entry.id if start is None else start
         targets = set(targets) if targets is not None else {self.exit.id, self.raise_exit.id}
+        if max_visits is None:
+            max_visits = LOOP_UNROLL
         out = []
 
         def rec(n, path, counts):
@@ -362,7 +368,7 @@ class CFG:
         rec(start, [], {})
         return out
 
-    def path_conditions(self, target, start=None, max_visits=1, limit=5000, start_label=None):
+    def path_conditions(self, target, start=None, max_visits=None, limit=5000, start_label=None):
         """Every path start->target as a list of (node, polarity) for the condition atoms and
         loop heads it crosses (DNF of the reaching condition)."""
         start = self.entry.id if start is None else start
